@@ -10,7 +10,7 @@ use mclib::engine::{catch, finish, Ctx, Report, Tier};
 use mclib::scopes::*;
 use refmodel::gen::{self, ValDomain};
 use refmodel::ty::{Env, Prim, Ty, P};
-use refmodel::val::{has_type, has_type_liberal, has_type_liberal_ext, Val};
+use refmodel::val::{has_type, has_type_liberal, has_type_liberal_ext, liberal_norm, Val};
 use refmodel::wire::{self, Limits};
 use refmodel::{hash, sub};
 use serde_json::json;
@@ -306,6 +306,128 @@ pub fn near_misses(env: &Env, t: &Ty, v: &Val) -> Vec<Val> {
     out
 }
 
+/// E3b: values that are of type `t` only through the stated allowances (a nat where an int is
+/// expected — with magnitudes on both sides of every (S)LEB128 group boundary —, anything where
+/// reserved is expected, null where an option is expected, an absent field of null/opt/reserved
+/// type, a float64 literal at float32), applied at every position of `v`.
+pub fn allowance_values(env: &Env, t: &Ty, v: &Val) -> Vec<Val> {
+    let mut out: Vec<Val> = vec![];
+    let t = match env.unf(t) {
+        Ok(t) => t,
+        Err(_) => return out,
+    };
+    let root = |m: Val, out: &mut Vec<Val>| {
+        if m != *v && !out.contains(&m) {
+            out.push(m);
+        }
+    };
+    match (v, t) {
+        (_, Ty::Prim(Prim::Reserved)) => {
+            for m in [Val::nat(64), Val::Text("x".into()), Val::Null, Val::some(Val::Bool(true)), Val::record(vec![(0, Val::NatN(8, 1))])] {
+                root(m, &mut out);
+            }
+        }
+        (Val::Int(_), Ty::Prim(Prim::Int)) => {
+            for n in [0u64, 63, 64, 100, 127, 128, 8191, 8192, 16383, 1 << 20, (1 << 21) - 1, u64::MAX] {
+                root(Val::nat(n), &mut out);
+            }
+        }
+        (Val::F32(_), Ty::Prim(Prim::Float32)) => {
+            root(Val::F64(1.5f64.to_bits()), &mut out);
+            root(Val::F64(0.1f64.to_bits()), &mut out);
+        }
+        (Val::Opt(o), Ty::Opt(tx)) => {
+            root(Val::Null, &mut out);
+            root(Val::Reserved, &mut out);
+            if let Some(x) = o {
+                for m in allowance_values(env, tx, x) {
+                    root(Val::some(m), &mut out);
+                }
+            }
+        }
+        (Val::Vec(xs), Ty::Vec(tx)) => {
+            for i in 0..xs.len().min(2) {
+                for m in allowance_values(env, tx, &xs[i]) {
+                    let mut ys = xs.clone();
+                    ys[i] = m;
+                    root(Val::Vec(ys), &mut out);
+                }
+            }
+        }
+        (Val::Record(fs), Ty::Record(ts)) if fs.len() == ts.len() => {
+            for i in 0..fs.len() {
+                if env.nullish(&ts[i].1) {
+                    let mut g = fs.clone();
+                    g.remove(i);
+                    root(Val::Record(g), &mut out);
+                }
+                for m in allowance_values(env, &ts[i].1, &fs[i].1) {
+                    let mut g = fs.clone();
+                    g[i].1 = m;
+                    root(Val::Record(g), &mut out);
+                }
+            }
+        }
+        (Val::Variant(l, x), Ty::Variant(ts)) => {
+            if let Some((_, tx)) = ts.iter().find(|f| f.0 == *l) {
+                for m in allowance_values(env, tx, x) {
+                    root(Val::Variant(*l, Box::new(m)), &mut out);
+                }
+            }
+        }
+        _ => {}
+    }
+    out
+}
+
+/// an allowance value must be accepted, and the message must denote its normal form at `t`
+fn check_allowance(tr: &Triple, m: &Val, rep: &mut Report, lim: &Limits) {
+    let Some(norm) = liberal_norm(&tr.env, m, &tr.t, true) else { return };
+    let renv: TypeEnv = bridge::to_real_env(&tr.env);
+    let rt: Type = bridge::to_real_ty(&tr.t);
+    let Ok(iv) = bridge::to_idl(m, false) else { return };
+    rep.evaluations += 1;
+    rep.transitions += 3;
+    let case = || {
+        let mut c = case_of(tr);
+        c["allowance_value"] = json!(m.to_string());
+        c["denotes"] = json!(norm.to_string());
+        c
+    };
+    let key = |clause: &str| format!("{clause}|env={}|t={}|m={}", tr.env.to_string().replace('\n', " "), tr.t, m);
+    match catch(|| IDLArgs::new(&[iv.clone()]).to_bytes_with_types(&renv, &[rt.clone()])) {
+        Err(p) => rep.violation(&key("allowance-encode-panic"), p, case()),
+        Ok(Err(e)) => rep.violation(&key("allowance-encode-rejects"), format!("to_bytes_with_types rejects a value allowed at the type: {}", first_line(&e.to_string())), case()),
+        Ok(Ok(bytes)) => {
+            rep.traces_validated += 3;
+            rep.outcome("allowance:encoded");
+            match wire::decode(&bytes, lim) {
+                Err(e) => rep.violation(&key("allowance-encode-malformed"), format!("message is not well-formed ({e:?}): {}", hex(&bytes)), case()),
+                Ok(d) => {
+                    let merged = d.env.merge_disjoint(&tr.env);
+                    if d.vals != vec![norm.clone()] {
+                        rep.violation(&key("allowance-encode-wrong-value"), format!("message {} denotes {} : {}", hex(&bytes), vals_text(&d.vals), tys_text(&d.tys)), case());
+                    } else if d.tys.len() != 1 || !sub::equal(&merged, &d.tys[0], &tr.t) {
+                        rep.violation(&key("allowance-encode-wrong-type"), format!("message declares type {}", tys_text(&d.tys)), case());
+                    } else {
+                        rep.nontrivial += 1;
+                    }
+                }
+            }
+            let back = impl_decode_at(&bytes, &renv, &[rt.clone()]);
+            if back != ImplOutcome::Ok(vec![norm.clone()]) {
+                rep.violation(&key("decode-typed"), format!("allowance value: from_bytes_with_types gives {back:?}"), case());
+            }
+        }
+    }
+    // parser-mode annotation accepts it and returns a value of the type
+    match catch(|| iv.annotate_type(true, &renv, &rt)) {
+        Err(p) => rep.violation(&key("allowance-annotate-panic"), p, case()),
+        Ok(Err(e)) => rep.violation(&key("allowance-annotate-rejects"), first_line(&e.to_string()), case()),
+        Ok(Ok(_)) => {}
+    }
+}
+
 fn check_near_miss(tr: &Triple, m: &Val, rep: &mut Report) {
     let renv: TypeEnv = bridge::to_real_env(&tr.env);
     let rt: Type = bridge::to_real_ty(&tr.t);
@@ -423,6 +545,14 @@ pub fn build(tier: Tier) -> (Vec<Triple>, Vec<String>) {
         }
     }
     notes.push(format!("E: {} depth-2 types, {} triples", t2.len(), out.len() - n0));
+    // F: aliases of every primitive (directly and through a chain) at every constructor position
+    let n0 = out.len();
+    for (env, t) in alias_envs("") {
+        for v in gen::values(&env, &t, &tiny, 3) {
+            out.push(Triple { env: env.clone(), t: t.clone(), v, family: "F:aliases" });
+        }
+    }
+    notes.push(format!("F: {} triples", out.len() - n0));
     (out, notes)
 }
 
@@ -443,6 +573,13 @@ pub fn run(tier: Tier, replay: Option<&str>) -> i32 {
         }
     });
     rep.merge(r2);
+    let r2b = ctx.par_range("E3b:allowance values", triples.len() as u64, 64, || (), |_, i, rep| {
+        let tr = &triples[i as usize];
+        for m in allowance_values(&tr.env, &tr.t, &tr.v) {
+            check_allowance(tr, &m, rep, &lim);
+        }
+    });
+    rep.merge(r2b);
     // try_from_candid_type on the corpus
     let n = corpus_all::entries().len() as u64;
     let r3 = ctx.par_range("E1:try_from_candid_type on the Rust corpus", n, 8, corpus_all::entries, |es, i, rep| {
@@ -469,7 +606,7 @@ pub fn run(tier: Tier, replay: Option<&str>) -> i32 {
     finish(
         &ctx,
         rep,
-        "triples (environment, type, value): A every primitive and every depth-1 constructor over all 17 primitives with boundary values; B depth-2 types with tiny values; C recursive environments (list, tree, mutual recursion through vec, alias chains, a definition named table0); D function/service references. Per triple (blob spelled as Vec and as Blob): annotate_type(false/true) keeps the meaning and sets variant indices; to_bytes_with_types output is decoded by the strict reference decoder to the same value at an equal type, and by from_bytes_with_types / from_bytes to the same value; to_bytes of the annotated value round-trips. E3: every near-miss (other number width/kind, missing non-optional field, undeclared tag, payload of another tag, other reference kind, one wrong vector element) is accepted by typed encoding and annotate_type(true) iff it is typed under the three stated allowances; annotate_type(false) must only be type safe. Plus IDLValue::try_from_candid_type on every small value of the Rust corpus.",
+        "triples (environment, type, value): A every primitive and every depth-1 constructor over all 17 primitives with boundary values; B depth-2 types with tiny values; C recursive environments (list, tree, mutual recursion through vec, alias chains, a definition named table0); D function/service references. Per triple (blob spelled as Vec and as Blob): annotate_type(false/true) keeps the meaning and sets variant indices; to_bytes_with_types output is decoded by the strict reference decoder to the same value at an equal type, and by from_bytes_with_types / from_bytes to the same value; to_bytes of the annotated value round-trips. E3: every near-miss (other number width/kind, missing non-optional field, undeclared tag, payload of another tag, other reference kind, one wrong vector element) is accepted by typed encoding and annotate_type(true) iff it is typed under the three stated allowances; annotate_type(false) must only be type safe. E3b: every value that is of the type only through the allowances (nat at int with magnitudes 0, 63, 64, 100, 127, 128, 8191, 8192, 16383, 2^20, 2^21-1, 2^64-1; null / reserved at opt; anything at reserved; absent null/opt/reserved field; float64 literal at float32), at every position, must be accepted and the message must denote its normal form at the type (strict reference decoder, and from_bytes_with_types). Family F: aliases of every primitive, directly and through a chain, at every constructor position. Plus IDLValue::try_from_candid_type on every small value of the Rust corpus.",
         &["R1 typing judgement, R2 strict decoder, R3 equality", "extra record fields and missing optional fields are not treated as near-misses (annotation documents width subtyping / field defaults)"],
         json!({}),
     )
@@ -492,6 +629,11 @@ fn replay_case(path: &str, lim: &Limits) -> i32 {
             for m in near_misses(&tr.env, &tr.t, &tr.v) {
                 if c.get("mutant").and_then(|x| x.as_str()) == Some(&m.to_string()) {
                     check_near_miss(tr, &m, &mut rep);
+                }
+            }
+            for m in allowance_values(&tr.env, &tr.t, &tr.v) {
+                if c.get("allowance_value").and_then(|x| x.as_str()) == Some(&m.to_string()) {
+                    check_allowance(tr, &m, &mut rep, lim);
                 }
             }
             break;
